@@ -401,20 +401,21 @@ func (lb *LoadBalancer) processHealthCheckResponse(backend *Backend, resp *http.
 		return
 	}
 
-	// If we get here, the backend is healthy
+	// If we get here, the probe succeeded. Probes are only sent to healthy backends, so a backend
+	// found unhealthy here was ejected while this probe was in flight: its unhealthy window stands,
+	// a successful probe never cuts it short (re-admission is by expiry, see IsBackendHealthy)
 	backend.Mutex.Lock()
-	wasUnhealthy := !backend.IsHealthy
-	backend.IsHealthy = true
+	if !backend.IsHealthy {
+		backend.Mutex.Unlock()
+		logging.L().Debug().Str("backend", backend.Name).Msg("probe succeeded for a backend ejected meanwhile, unhealthy window kept")
+		return
+	}
 
 	// Update metrics before releasing the lock so a concurrent ejection cannot be overwritten
 	if lb.metricsCollector != nil {
 		lb.metricsCollector.UpdateBackendHealth(backend.Name, true)
 	}
 	backend.Mutex.Unlock()
-
-	if wasUnhealthy {
-		logging.L().Info().Str("backend", backend.Name).Msg("backend marked healthy via active check")
-	}
 }
 
 // AddBackend adds a new backend server to the load balancer
